@@ -414,9 +414,9 @@ def run(ctx):
     s = ctx.seed * 1000
     shards = []
     for k in range(8):
-        shards.append(("loss", ["tridonic", "hasseb"][k % 2], s + k, 600 if q else 8000))
+        shards.append(("loss", ["tridonic", "hasseb"][k % 2], s + k, 600 if q else 30000))
     for k, drv in enumerate(["tridonic", "tridonic", "hasseb", "luba", "sci"]):
-        shards.append(("cancel", drv, s + 20 + k, 10 if q else 100))
+        shards.append(("cancel", drv, s + 20 + k, 10 if q else 200))
     for k in range(4):
-        shards.append(("mute", ["luba", "sci"][k % 2], s + 40 + k, 400 if q else 5000))
+        shards.append(("mute", ["luba", "sci"][k % 2], s + 40 + k, 400 if q else 15000))
     ctx.pmap(_shard, shards)
